@@ -60,7 +60,10 @@ Forms == <<
                              Tk(".segment","start",TRUE,"\n"), Tk("\"s2\"","ws",FALSE," "), Tk("{","mws",FALSE," "), Tk("nop","start",TRUE," "), Tk("}","mws",FALSE," ")>>],
  (* forms whose last terminal is a keyword literal (appended: MC_Layout's Pairs refers to the forms above by index) *)
  [name |-> "byte-bool",  toks |-> <<Tk(".byte","start",TRUE,""), Tk("cv","ws",FALSE," "), Tk(",","ws",FALSE,""), Tk("false","ws",TRUE," ")>>],
- [name |-> "const-bool", toks |-> <<Tk(".const","start",TRUE,""), Tk("nb","ws",FALSE," "), Tk("=","ws",FALSE," "), Tk("true","ws",TRUE," ")>>]
+ [name |-> "const-bool", toks |-> <<Tk(".const","start",TRUE,""), Tk("nb","ws",FALSE," "), Tk("=","ws",FALSE," "), Tk("true","ws",TRUE," ")>>],
+ (* the block symbols as operands, with a statement behind them (which may share their line) *)
+ [name |-> "blk-back",   toks |-> <<Tk("{","start",FALSE,""), Tk("dex","start",TRUE," "), Tk("bne","start",TRUE,"\n"), Tk("-","ws",FALSE," "), Tk("rts","start",TRUE,"\n"), Tk("}","mws",FALSE,"\n")>>],
+ [name |-> "blk-fwd",    toks |-> <<Tk("{","start",FALSE,""), Tk("beq","start",TRUE," "), Tk("+","ws",FALSE," "), Tk("inx","start",TRUE,"\n"), Tk("}","mws",FALSE,"\n")>>]
 >>
 
 WsFillers  == {"", " ", "\t", "  \t ", "/* c */", "/* k */", "/* a /* n */ b */", "/* lda #1 */", " /**/ ", "/** doc **/", "/**** b ****/", "/* x*y / z */"}
@@ -77,7 +80,9 @@ TwoGaps(S) == {[kind |-> "gap2", f |-> f, i |-> i, j |-> j, fill |-> x, fill2 |-
 WordChars == {"a","b","c","d","e","f","g","h","i","j","k","l","m","n","o","p","q","r","s","t","u","v","w","x","y","z",
               "0","1","2","3","4","5","6","7","8","9","_",".","$","%"}
 Fuses(a, b) == SubSeq(a, Len(a), Len(a)) \in WordChars /\ SubSeq(b, 1, 1) \in WordChars
-NoFuse(f, i, fill) == fill # "" \/ i = 1 \/ ~Fuses(Forms[f].toks[i - 1].s, Forms[f].toks[i].s)
+(* a block symbol `-' / `+' directly in front of the next statement's first word reads as a sign of that word *)
+SignFuses(f, i) == Forms[f].toks[i].g = "start" /\ Forms[f].toks[i - 1].s \in {"-", "+"}
+NoFuse(f, i, fill) == fill # "" \/ i = 1 \/ ~(Fuses(Forms[f].toks[i - 1].s, Forms[f].toks[i].s) \/ SignFuses(f, i))
 Valid(v) == /\ v.i \in GapIdx(v.f) /\ v.fill \in Fillers(Forms[v.f].toks[v.i].g) /\ NoFuse(v.f, v.i, v.fill)
             /\ (v.kind = "gap2" => (v.j \in GapIdx(v.f) /\ v.j > v.i /\ v.fill2 \in Fillers(Forms[v.f].toks[v.j].g)))
 CaseVariants == {[kind |-> "case", f |-> f, i |-> i, j |-> 0, fill |-> c, fill2 |-> ""] : f \in 1..Len(Forms), i \in 1..30, c \in {"upper", "mixed"}}
